@@ -51,7 +51,10 @@ def worker(shards):
     acc = Acc()
     for sh in shards:
         kind = sh[0]
-        if kind == "unary":
+        if kind == "selfcheck":
+            H.selfcheck()           # an AssertionError here is reported by pmap as a harness error
+            acc.seen("selfcheck", "done")
+        elif kind == "unary":
             for i, a in enumerate(ALPHA[sh[1]]):
                 P.check_unary(sh[1], a[1], acc, size=i)
         elif kind == "pair":
@@ -127,7 +130,7 @@ def xhist_starts(cname):
 
 def run(ctx):
     q = ctx.quick
-    H.selfcheck()
+    R.validate_curves()
     if not K.have_seam():
         ctx.acc.error("seam Crypto.PublicKey._point.getrandbits not found")
         return
@@ -136,7 +139,9 @@ def run(ctx):
     for cname in H.MONT:
         XALPHA[cname] = K.xpoint_alphabet(cname)
     full = ("p256", "ed25519", "curve25519")
-    sh = []
+    # the reference self-tests (6-8 s: RFC vectors, 1000 X25519 iterations, helper cross-checks) run as the first shard, in
+    # parallel with the exploration; a failure is a harness error (exit 3)
+    sh = [[("selfcheck",)]]
     # --- EccPoint ---
     for cname in H.WEIER + H.EDW:
         sh.append([("unary", cname)])
@@ -150,7 +155,7 @@ def run(ctx):
             plans = [(3, True, (0,))] if cname in full else []
             plans.append((2, False, (0, 1, 2)))
         else:
-            plans = [(3, False, (0, 1, 2))]
+            plans = [(3, False, (0, 1, 2))] + ([(4, True, (0,))] if cname in full else [])
         hist_plan[cname] = plans
         for depth, reduced, starts in plans:
             nops = len(P.hist_ops(cname, ALPHA[cname], reduced))
@@ -184,12 +189,13 @@ def run(ctx):
             sh.append([("kaneutral", cname, None)])
     sh.append([("cross",)])
     # expensive shards first
-    cost = {"rfciter": 0, "hist": 1, "xhist": 1, "scalar": 2, "xscalar": 3}
+    cost = {"selfcheck": -1, "rfciter": 0, "hist": 1, "xhist": 1, "scalar": 2, "xscalar": 3}
     sh.sort(key=lambda s: (cost.get(s[0][0], 5), -R.CURVES[s[0][1]].bits if len(s[0]) > 1 and s[0][1] in R.CURVES else 0))
     ctx.pmap(worker, sh)
 
     a = ctx.acc
     cl = a.distinct.get("classes", set())
+    ctx.require("done" in a.distinct.get("selfcheck", ()), "reference self-check shard did not complete")
     for cname in H.WEIER + H.EDW:
         ctx.require(any(c[0] == "scalar" and c[1] == cname and c[3] == ">=2^bits" for c in cl) or
                     any(c[0] == "scalar-exc" and c[1] == cname for c in cl), "%s: no scalar >= 2^bits was multiplied" % cname)
